@@ -42,8 +42,17 @@ type conf struct {
 	Root string // "", "A" or "B": root file system for relative files
 }
 
-var rootA = fstest.MapFS{"list.txt": {Data: []byte("a1\n")}}
-var rootB = fstest.MapFS{"list.txt": {Data: []byte("b2\n")}}
+// the two roots also hold a JSON schema of the same name and the same "$id" with different contents
+const schemaLoose = `{"$id": "https://c13.test/schemas/order.json", "type": "object", "properties": {"name": {"type": "string"}}, "required": ["name"]}`
+const schemaStrict = `{"$id": "https://c13.test/schemas/order.json", "type": "object", "properties": {"name": {"type": "string"}, "age": {"type": "number"}}, "required": ["name", "age"], "additionalProperties": false}`
+
+var rootA = fstest.MapFS{"list.txt": {Data: []byte("a1\n")}, "api.json": {Data: []byte(schemaLoose)}}
+var rootB = fstest.MapFS{"list.txt": {Data: []byte("b2\n")}, "api.json": {Data: []byte(schemaStrict)}}
+
+const schemaRules = hdr + "SecRequestBodyAccess On\nSecRule REQUEST_HEADERS:Content-Type \"@beginsWith application/json\" \"id:3,phase:1,pass,nolog,ctl:requestBodyProcessor=JSON\"\nSecRule TX:json_request_body \"@validateSchema api.json\" \"id:1,phase:2,deny,status:403\"\n"
+
+// one expression in two roles: whatever one operator does to the compiled regexp it shares must not reach the other
+const nidExpr = "[0-9]{8}|[0-9]{8}-[0-9k]"
 
 const hdr = "SecRuleEngine On\n"
 
@@ -64,6 +73,10 @@ var pool = []conf{
 	{"rx-foo-prefilter-off", hdr + "SecRxPreFilter Off\nSecRule ARGS \"@rx ^foo\" \"id:1,phase:1,deny,status:403,capture\"\n", ""},
 	// the same exact-match pattern with a group twice in one WAF: the second operator is served from the cache and must still capture TX.1
 	{"rx-exact-group-twice", hdr + "SecRxPreFilter On\nSecRule ARGS \"@rx (^foo$)\" \"id:3,phase:1,pass,nolog\"\nSecRule ARGS \"@rx (^foo$)\" \"id:1,phase:1,pass,nolog,capture,setvar:tx.g=%{tx.1}\"\nSecRule TX:g \"@streq foo\" \"id:2,phase:1,deny,status:403\"\n", ""},
+	{"schema-rootA-loose", schemaRules, "A"},
+	{"schema-rootB-strict", schemaRules, "B"},
+	{"nid-us-alternation", hdr + "SecRule ARGS \"@validateNid us " + nidExpr + "\" \"id:1,phase:1,deny,status:403\"\n", ""},
+	{"nid-cl-alternation", hdr + "SecRule ARGS \"@validateNid cl " + nidExpr + "\" \"id:1,phase:1,deny,status:403\"\n", ""},
 	{"nid-foo", hdr + "SecRule ARGS \"@validateNid cl foo\" \"id:1,phase:1,deny,status:403\"\n", ""},
 	// the same text split differently into phrases: two words vs one phrase containing a space
 	{"pm-two-words", hdr + "SecRule ARGS \"@pm a1 b2\" \"id:1,phase:1,deny,status:403\"\n", ""},
@@ -83,6 +96,8 @@ var requests = []scen.Req{
 	{URI: "/p?foo-a=x"},
 	{URI: "/p?y=1", Headers: [][2]string{{"foo-h", "x"}}},
 	{URI: "/p?Foo-a=x", Headers: [][2]string{{"Foo-h", "x"}}},
+	{URI: "/orders", Headers: [][2]string{{"Content-Type", "application/json"}}, Body: `{"name":"n"}`}, // valid for the loose schema only
+	{URI: "/p?x=12345678-1"}, // leftmost-first and leftmost-longest matches of the alternation differ
 }
 
 func buildConf(c conf) (coraza.WAF, error) {
